@@ -68,6 +68,7 @@ Print Assumptions C09_type_words.
 Theorem C09_five_words_documented :
   forall w, In w ["rna"; "dna"; "internal"; "protein"; "divergent"]%string -> In w doc_type_words.
 Proof. exact doc_words_complete. Qed.
+Print Assumptions C09_five_words_documented.
 
 (* Options that are not given reach the library as "not given". *)
 Theorem C09_cli_defaults :
